@@ -219,8 +219,9 @@ pub fn strategy(thorough: bool) -> BoxedStrategy<Case> {
         prop_oneof![8 => Just(0u8), 1 => Just(1u8), 1 => Just(2u8)],
         cgen::chunks(),
         any::<bool>(),
+        prop_oneof![3 => Just(None), 1 => (0u8..3).prop_map(Some)],
     )
-        .prop_map(|(mut cfg, ops, disc, server_keepalive, assigned_id, tx_mode, write_chunks, second_conn)| {
+        .prop_map(|(mut cfg, ops, disc, server_keepalive, assigned_id, tx_mode, write_chunks, second_conn, max_qos)| {
             let need = largest_request(&ops);
             // tx_mode 0: ample (twice the largest request); 1: a little too small; 2: tiny
             cfg.tx = match tx_mode {
@@ -242,7 +243,7 @@ pub fn strategy(thorough: bool) -> BoxedStrategy<Case> {
             }
             let io = IoCfg { read_chunks: vec![], write_chunks: if need > 100_000 { vec![] } else { write_chunks }, pend_first: false, read_cuts: vec![] };
             let connect = ConnectSpec {
-                props: ConnackProps { server_keepalive, assigned_id, ..ConnackProps::default() },
+                props: ConnackProps { server_keepalive, assigned_id, max_qos, ..ConnackProps::default() },
                 io: io.clone(),
                 ..ConnectSpec::default()
             };
@@ -250,7 +251,8 @@ pub fn strategy(thorough: bool) -> BoxedStrategy<Case> {
             if second_conn {
                 conns.push(ConnScript {
                     connect: ConnectSpec { io, ..ConnectSpec::default() },
-                    steps: vec![Step::Publish(PubSpec::simple(0, 3, 3, 1))],
+                    // the second CONNACK carries no limits: nothing learned earlier may leak into it
+                    steps: vec![Step::Publish(PubSpec::simple(0, 3, 3, 1)), Step::Publish(PubSpec::simple(2, 3, 3, 2)), Step::Publish(PubSpec::simple(1, 3, 3, 3))],
                     end: EndHow::Drop,
                 });
             }
